@@ -965,6 +965,12 @@ class Server:
                 )
                 connection.extra_workers -= done
                 for task in done:
+                    if task.cancelled():
+                        # worker aborted before its first step: it had
+                        # no chance to answer itself
+                        connection.response("426", "transfer aborted")
+                        connection.response("226", "abort successful")
+                        continue
                     try:
                         result = task.result()
                     except errors.PathIOError:
@@ -1622,6 +1628,8 @@ class Server:
             for worker in fresh:
                 connection.aborted_workers.add(worker)
                 worker.cancel()
+            # next command is handled when the abort is over
+            await asyncio.wait(fresh)
         else:
             if connection.aborted_workers:
                 await asyncio.wait(connection.aborted_workers)
